@@ -38,6 +38,7 @@ BOOL = py2lean.BOOL
 LSTR = ('List', STR)
 LINT = ('List', INT)
 
+_CLASS_TABLES = {}            # pattern -> runs (cache: one evaluation of the regex on every code point per pattern)
 DEQUE_METHODS = ('append', 'popleft', 'clear', 'extend')
 # a Name load of an owned / deque local is allowed exactly in these positions (see `_Pre._uses_ok`)
 PURE_CONSUMERS = ('len', 'min', 'max', 'sorted', 'list', 'tuple', 'set', 'sum')
@@ -523,6 +524,22 @@ class _Pre:
 
             def visit_Compare(self, n):
                 self.generic_visit(n)
+                if len(n.ops) == 1 and isinstance(n.ops[0], (ast.Is, ast.IsNot)) \
+                        and isinstance(n.comparators[0], ast.Constant) and n.comparators[0].value is None \
+                        and isinstance(n.left, ast.Call) and isinstance(n.left.func, ast.Name) \
+                        and len(n.left.args) == 1 and not n.left.keywords \
+                        and not isinstance(n.left.args[0], ast.Starred):
+                    # `<module-level compiled one-character-class regex>.search(s) is None`: no character of `s` is
+                    # in the class - a spec-declared predicate whose meaning is the TABLE obtained by evaluating the
+                    # regex on every code point (the same table as Generated/C14_ShTables.lean `shSafeRanges`)
+                    runs = pre._class_search_table(n.left.func.id)
+                    if runs is not None:
+                        pre.note('regex-class')
+                        t = ast.copy_location(ast.Constant(value=';'.join('%d,%d' % r for r in runs)), n)
+                        r = _op('none_in_class', [t, n.left.args[0]], n)
+                        if isinstance(n.ops[0], ast.IsNot):
+                            r = ast.copy_location(ast.UnaryOp(op=ast.Not(), operand=r), n)
+                        return r
                 if len(n.ops) == 1 and isinstance(n.ops[0], (ast.In, ast.NotIn)):
                     # type-directed: substring test on two strings, else the base membership test
                     return _op('in' if isinstance(n.ops[0], ast.In) else 'not_in', [n.left, n.comparators[0]], n)
@@ -550,6 +567,9 @@ class _Pre:
                     if m == 'join' and len(args) == 1 and not isinstance(args[0], ast.Starred):
                         pre.note('join')
                         return _op('join', [recv, args[0]], n)
+                    if m == 'replace' and len(args) == 2 and not any(isinstance(x, ast.Starred) for x in args):
+                        pre.note('replace')
+                        return _op('replace', [recv, args[0], args[1]], n)
                     if m == 'strip' and not args:
                         pre.note('strip')
                         return _op('strip', [recv], n)
@@ -589,6 +609,47 @@ class _Pre:
                     return _op(n.func.id + '_list', [n.args[0]], n)
                 return n
         self.f = T().visit(self.f)
+
+    # -- module-level `name = re.compile('<one character class>').search` -----------------------------------------------
+    def _class_search_table(self, name):
+        """maximal runs of code points c with `name(chr(c)) is None`, or None when `name` is not provably the bound
+        `search` of a flag-free compiled pattern that is ONE character class (then `search(s) is None` iff no
+        character of `s` matches)"""
+        import re
+        b = self._module_binds(name)
+        if self._local_stores(name) or len(b) != 1 or not isinstance(b[0], ast.Assign) or len(b[0].targets) != 1 \
+                or not isinstance(b[0].targets[0], ast.Name):
+            return None
+        v = b[0].value
+        if not (isinstance(v, ast.Attribute) and v.attr == 'search' and isinstance(v.value, ast.Call)
+                and isinstance(v.value.func, ast.Attribute) and v.value.func.attr == 'compile'
+                and isinstance(v.value.func.value, ast.Name) and self._is_std_module(v.value.func.value.id, 're')
+                and len(v.value.args) == 1 and not v.value.keywords and isinstance(v.value.args[0], ast.Constant)
+                and isinstance(v.value.args[0].value, str)):
+            return None
+        pat = v.value.args[0].value
+        if pat in _CLASS_TABLES:
+            return _CLASS_TABLES[pat]
+        try:
+            tree = re._parser.parse(pat, 0)
+            cp = re.compile(pat)
+        except Exception:
+            return None
+        if len(tree) != 1 or str(tree[0][0]) not in ('IN', 'LITERAL', 'NOT_LITERAL') or cp.flags != re.UNICODE:
+            return None
+        runs, lo = [], None
+        search = cp.search
+        for c in range(0x110000):
+            safe = (not 0xD800 <= c <= 0xDFFF) and search(chr(c)) is None
+            if safe and lo is None:
+                lo = c
+            if not safe and lo is not None:
+                runs.append((lo, c - 1))
+                lo = None
+        if lo is not None:
+            runs.append((lo, 0x10FFFF))
+        _CLASS_TABLES[pat] = runs
+        return runs
 
     # -- R4: an Optional parameter given its default inside `if p is None:` -----------------------------------------
     def _definitely_assigns(self, stmts, p):
@@ -853,6 +914,19 @@ def translate_op(ex, node, expected):
                 e, _ = ex.expr(arg, pt)
                 terms.append(atom(e))
         return ex.partial('%s %s' % (sp['lean_name'], ' '.join(terms)), node), py2lean.parse_type(sp['result'])
+    if name == 'none_in_class' and len(a) == 2:
+        e, _ = ex.expr(a[1], STR)
+        runs = [tuple(int(x) for x in r.split(',')) for r in a[0].value.split(';')] if a[0].value else []
+        tab = '([%s] : List (Nat × Nat))' % ', '.join('(%d, %d)' % r for r in runs)
+        return '(PyRtC14.allInRanges %s %s)' % (tab, atom(e)), BOOL
+    if name == 'replace' and len(a) == 3:
+        e, t = ex.expr(a[0])
+        _need([t])
+        if t != STR:
+            raise Unsupported(node, 'replace() of %s' % (t,))
+        o, _ = ex.expr(a[1], STR)
+        n_, _ = ex.expr(a[2], STR)
+        return '(PyRtC14.replace %s %s %s)' % (atom(e), atom(o), atom(n_)), STR
     if name == 'sub' and len(a) == 2:
         ts = _types(ex, a)
         if ts[0] is not None and ts[0][0] == 'Set':
@@ -1048,7 +1122,29 @@ def fam_int_ranges(rng, quick):
         yield dict(range_string=s, delim=';', range_delim='..')
 
 
+ARGS = ['', 'a', 'aa', '[bb]', "cc'cc", 'dd"dd', "'", "''", "a'", "'a'b'", ' ', 'a b', '\t', '$x', '`', '\\', 'a\\', 'a\\"b',
+        '\\\\', '"', '\\"', 'a-b', 'a=b', 'x/y.z', '@%+:,', 'é', '–', '\n', 'a\x00b', '*', '~', 'A_Z09', '!', '#', ';', '&|',
+        'a\\\\ b', ' \\', '\\ ', '"\\', 'tab\there', "it's", "'\"'\"'", '-', '--x', '\u3000', '\u2028x']
+
+
+def fam_args(rng, quick):
+    yield dict(args=[], sep=' ')
+    for a in ARGS:
+        yield dict(args=[a], sep=' ')
+    for _ in range(250 if quick else 3000):
+        k = rng.randint(0, 5)
+        args = []
+        for _ in range(k):
+            if rng.random() < 0.6:
+                args.append(rng.choice(ARGS))
+            else:
+                args.append(''.join(rng.choice('ab \t\'"\\$-_/.é\n') for _ in range(rng.randint(0, 7))))
+        yield dict(args=args, sep=rng.choice([' ', ' ', ',', '', '  ']))
+
+
 FAMILIES = {
+    'args2sh': fam_args,
+    'args2cmd': fam_args,
     'format_int_list': fam_format_int_list,
     'parse_int_list': fam_parse_int_list,
     'complement_int_list': fam_complement_int_list,
